@@ -487,8 +487,10 @@ def main():
     chk.counters["scripts"] = len(scripts)
     chk.counters["allocations_in_fault_free_runs"] = sum(Ks.values())
     chk.finish(
-        rule="for each scripted history every allocation index k (quick: every "
-             "k of the two short scripts, every 7th k of the others) made from "
+        rule="for each scripted history and each generated API history "
+             "(C03 generator: quick 8, thorough 96) every allocation index k "
+             "(quick: every k of the three short scripts, every 7th k of the "
+             "other scripts, every 5th of the generated ones) made from "
              "a libvna call site is failed once; the faulted call must succeed "
              "or fail with ENOMEM, the process must stay clean under "
              "ASan/UBSan/LSan, and after one retry of the failed call every "
